@@ -291,7 +291,7 @@ def gs_rem(xy):
 
 
 # ------------------------------------------------------------------------------------------ model pairs
-PROFILE = {"nbody": (2, 5), "plane": 0.0, "contacts": 0.0, "equalities": 0.0, "frictionloss": 0.0, "limits": 0.2,
+PROFILE = {"nbody": (2, 5), "plane": 0.0, "contacts": 0.0, "equalities": 0.0, "frictionloss": 0.0, "limits": 0.0,
            "static_body": 0.3, "mocap": 0.0, "sites": 0.9, "cameras": 0.3, "keys": 0.0, "pairs": 0.0, "excludes": 0.0,
            "free": 0.2, "sleep": 0.0, "sensors": (0, 2), "tendons": 0.2, "islands": 1.0,
            "actuator_kinds": ("motor", "position", "velocity", "general"), "integrators": ("Euler", "implicitfast", "RK4")}
@@ -456,7 +456,10 @@ def gen_pairs(ctx):
 
     for i in range(nmodel):
         mdl = ModelGen(rng, PROFILE).make()
-        lines = list(mdl.lines)
+        # joint / tendon limits switch constraints on and off: a rounding-level difference between two equivalent
+        # descriptions can flip an activation and is then amplified without bound, so the trajectory comparison runs on
+        # limit-free models (limits do not interact with any of the rewritings)
+        lines = [l for l in mdl.lines if not (l.startswith("set ") and l.split()[2] in ("limited", "range"))]
         st = state_lines(mdl, rng)
         A, B, tag = rewrite_spellings(rng, lines)
         add(tag, A, B, st)
@@ -541,12 +544,12 @@ def pairs_oracle(ctx, impl):
         ctx.oracle_failure("c36:pairs:crash", "c36_equiv crashed (rc=%s) at block %d (%s)" % (r.returncode, idx, tags[idx]),
                            {"block": blocks[idx][:6000], "stderr": r.stderr[-400:]})
         return
-    stats, nfail, nerr = {}, 0, 0
+    stats, nfail, nerr, reported = {}, 0, 0, {}
     for blk, tag, out in zip(blocks, tags, outs):
         kind = tag.split(":")[0] + (":" + tag.split(":")[1] if tag.startswith("frames") else "")
         s = stats.setdefault(kind, {"n": 0, "maxdev": 0.0, "maxdev_initial_pose": 0.0, "static_same": 0, "errors": 0})
-        m = re.match(r"maxdev=(\S+) dev0=(\S+) nmatched=(\d+) nqA=(\d+) nqB=(\d+) numdev=(\S+) refs=(\S+) static=(\S+)", out)
-        rp = {"rewriting": tag, "impl_output": out, "block": blk[:8000], "replay": "feed the block to <c36_equiv harness>"}
+        m = re.match(r"maxdev=(\S+) dev0=(\S+) nmatched=(\d+) nqA=(\d+) nqB=(\d+) numdev=(\S+) unstable=(\d+) refs=(\S+) static=(\S+)", out)
+        rp = {"rewriting": tag, "impl_output": out, "block": blk[:30000], "replay": "feed the block to <c36_equiv harness>"}
         if not m:
             s["errors"] += 1
             nerr += 1
@@ -559,8 +562,14 @@ def pairs_oracle(ctx, impl):
                     ctx.oracle_failure("c36:%s:one-side-fails" % kind, "only one of the two equivalent descriptions compiles: " + out[:200], rp)
             continue
         ctx.count(blk)
-        dev, dev0, nmatched, nqa, nqb, numdev, refs, static = (float(m.group(1)), float(m.group(2)), int(m.group(3)), int(m.group(4)),
-                                                               int(m.group(5)), float(m.group(6)), m.group(7), m.group(8))
+        dev, dev0, nmatched, nqa, nqb, numdev, unstable, refs, static = (float(m.group(1)), float(m.group(2)), int(m.group(3)),
+                                                                         int(m.group(4)), int(m.group(5)), float(m.group(6)),
+                                                                         int(m.group(7)), m.group(8), m.group(9))
+        if unstable:
+            # the generated model blows up (bad qacc / automatic reset) within the horizon: trajectories are not comparable;
+            # the initial pose, the references and the exact static arrays still are
+            s["unstable"] = s.get("unstable", 0) + 1
+            dev = 0.0
         s["n"] += 1
         s["maxdev"] = max(s["maxdev"], dev)
         s["maxdev_initial_pose"] = max(s["maxdev_initial_pose"], dev0)
@@ -583,8 +592,10 @@ def pairs_oracle(ctx, impl):
             bad = ("nothing-compared", "no body name of B exists in A")
         if bad:
             nfail += 1
-            if nfail <= 6:
-                ctx.oracle_failure("c36:%s:%s" % (kind, bad[0]), "%s: %s" % (tag, bad[1]), rp)
+            key = "c36:%s:%s" % (kind, bad[0])
+            reported[key] = reported.get(key, 0) + 1
+            if reported[key] <= 2:       # at most two replays per failure key
+                ctx.oracle_failure(key, "%s: %s" % (tag, bad[1]), rp)
     for k in stats:
         stats[k]["maxdev"] = float("%.3g" % stats[k]["maxdev"])
         stats[k]["maxdev_initial_pose"] = float("%.3g" % stats[k]["maxdev_initial_pose"])
